@@ -37,6 +37,24 @@ def run(ctx):
                 ctx.violation({"property": "C03", "class": "negative-posting"}, "posting %d is negative" % n,
                               {"area": "numscript", "input": inp, "observed": out})
         sends = [s for s in inp["ast"]["stmts"] if s["k"] == "send"]
+        # a send moves the asset it names: with only sends in the script, every posting's asset is one of the stated ones
+        if sends and all(s["k"] != "fail" for s in inp["ast"]["stmts"]):
+            env0, _, _, asset_of0 = resolve_env(inp)
+            stated = set()
+            for s in sends:
+                if s["amt"]["k"] == "all":
+                    stated.add(asset_of0(s["amt"]["asset"]))
+                else:
+                    m0 = eval_mon(s["amt"]["e"], env0, asset_of0)
+                    stated.add(m0[0] if m0 else None)
+            if None not in stated:
+                odd = [p for p in out["postings"] if p[3] not in stated]
+                if odd:
+                    alls = any(s["amt"]["k"] == "all" for s in sends)
+                    ctx.violation({"property": "C03", "class": "asset-differs",
+                                   "construct": "send-all+overdraft-in-other-asset" if alls and "od-upto" in features(inp) else "other"},
+                                  "a posting moves %s although the sends name %s" % (odd[0][3], sorted(stated)),
+                                  {"area": "numscript", "input": inp, "observed": out})
         if len(sends) == 1 and sends[0]["amt"]["k"] == "mon":
             env, bal, acct_of, asset_of = resolve_env(inp)
             m = eval_mon(sends[0]["amt"]["e"], env, asset_of)
